@@ -18,6 +18,7 @@ by the correspondence run: the harness is built with overflow checks on and ever
 code is a disagreement with the (never panicking) model and a violation by itself.
 -/
 import Emu8086.Lemmas.ExecBridge
+import Emu8086.Model.ILex
 
 namespace Emu8086.Props.C09
 open Emu8086 Emu8086.Spec
@@ -164,5 +165,260 @@ theorem exec_ok_mov8 (cur : Nat) (m : Machine) (ctx : Ctx) (d s : Op8) (hd : op8
   have h1 := resolve8_ok m ctx d hd; have h2 := resolve8_ok m ctx s hs
   simp only [exec]
   cases e1 : resolve8 m ctx d <;> cases e2 : resolve8 m ctx s <;> simp_all [okOf, bind, Except.bind]
+
+end Emu8086.Props.C09
+
+/-! ### operands the parser produces are well-formed (the hypothesis `Instr.WF` of `exec_refines`) -/
+namespace Emu8086.Props.C09
+open Emu8086
+
+theorem segReg_isSeg (s : String) (r : WordReg) (h : segReg? s = some r) : r.isSeg = true := by
+  unfold segReg? at h
+  split at h <;> first | (cases h; rfl) | (cases h)
+
+theorem parseBracket_seg (seg : Option WordReg) (t : List Tok) (a : MemAddr) (rest : List Tok)
+    (h : parseBracket seg t = some (a, rest)) : a.seg = seg := by
+  unfold parseBracket at h
+  split at h
+  · simp only [Option.map_eq_some_iff] at h; obtain ⟨d, _, hd⟩ := h; cases hd; rfl
+  · split at h <;> first | (cases h; rfl) | (cases h)
+  · split at h <;> first | (cases h; rfl) | (cases h)
+  · split at h
+    · cases h
+    · split at h <;> first | (cases h; rfl) | (cases h)
+  · cases h
+
+/-- every memory operand the interpreter's parser builds has no override or one of ES/CS/SS/DS -/
+theorem parseMemAddr_wf (t : List Tok) (a : MemAddr) (rest : List Tok) (h : parseMemAddr t = some (a, rest)) :
+    a.WF = true := by
+  unfold parseMemAddr at h
+  split at h
+  · split at h
+    · rename_i sr hs
+      have := parseBracket_seg _ _ _ _ h
+      simp only [MemAddr.WF, this]; exact segReg_isSeg _ _ hs
+    · cases h
+  · have := parseBracket_seg _ _ _ _ h
+    simp [MemAddr.WF, this]
+
+end Emu8086.Props.C09
+
+namespace Emu8086.Props.C09
+open Emu8086
+
+def Opnd.WF : Opnd → Bool
+  | .bmem a | .wmem a => a.WF
+  | _ => true
+
+theorem parseOpnd_wf (t : List Tok) (o : Opnd) (rest : List Tok) (h : parseOpnd t = some (o, rest)) : Opnd.WF o = true := by
+  unfold parseOpnd at h
+  split at h
+  · cases h; rfl
+  · cases h; rfl
+  · simp only [Option.map_eq_some_iff] at h
+    obtain ⟨⟨a, r⟩, ha, he⟩ := h; cases he
+    exact parseMemAddr_wf _ _ _ ha
+  · simp only [Option.map_eq_some_iff] at h
+    obtain ⟨⟨a, r⟩, ha, he⟩ := h; cases he
+    exact parseMemAddr_wf _ _ _ ha
+  · cases h; rfl
+  · cases h; rfl
+  · split at h <;> first | (cases h; rfl) | (cases h)
+  · cases h
+
+theorem opnd1_wf (t : List Tok) (o : Opnd) (h : opnd1 t = some o) : Opnd.WF o = true := by
+  unfold opnd1 at h
+  split at h
+  · rename_i o' hp; cases h; exact parseOpnd_wf _ _ _ hp
+  · cases h
+
+theorem opnd2_wf (t : List Tok) (a b : Opnd) (h : opnd2 t = some (a, b)) : Opnd.WF a = true ∧ Opnd.WF b = true := by
+  unfold opnd2 at h
+  split at h
+  · rename_i a' rest hp
+    split at h
+    · rename_i b' hq; cases h; exact ⟨parseOpnd_wf _ _ _ hp, parseOpnd_wf _ _ _ hq⟩
+    · cases h
+  · cases h
+
+theorem dst8_wf (o : Opnd) (d : Op8) (hw : Opnd.WF o = true) (h : dst8? o = some d) : d.WF = true := by
+  cases o <;> simp only [dst8?] at h <;> first | (cases h; first | rfl | exact hw) | (cases h)
+theorem dst16_wf (o : Opnd) (d : Op16) (hw : Opnd.WF o = true) (h : dst16? o = some d) : d.WF = true := by
+  cases o <;> simp only [dst16?] at h <;> first | (cases h; first | rfl | exact hw) | (cases h)
+
+end Emu8086.Props.C09
+
+namespace Emu8086.Props.C09
+open Emu8086
+
+def sumWF : Sum (Op8 × Op8) (Op16 × Op16) → Bool
+  | .inl (d, s) => d.WF && s.WF
+  | .inr (d, s) => d.WF && s.WF
+
+theorem binPair_wf (sg : Bool) (a b : Opnd) (r : Sum (Op8 × Op8) (Op16 × Op16)) (ha : Opnd.WF a = true) (hb : Opnd.WF b = true)
+    (h : binPair sg a b = some r) : sumWF r = true := by
+  cases h8 : dst8? a with
+  | some d =>
+    have hdw := dst8_wf a d ha h8
+    simp only [binPair, h8] at h
+    split at h
+    · cases h; (simp only [sumWF, hdw, Bool.true_and]; rfl)
+    · split at h
+      · cases h
+      · cases h; simp only [sumWF, hdw, Bool.true_and]; simpa [Op8.WF, Opnd.WF] using hb
+    · split at h
+      · cases h
+      · cases h; (simp only [sumWF, hdw, Bool.true_and]; rfl)
+    · simp only [Option.map_eq_some_iff] at h; obtain ⟨v, _, hv⟩ := h; cases hv; (simp only [sumWF, hdw, Bool.true_and]; rfl)
+  | none =>
+    cases h16 : dst16? a with
+    | some d =>
+      have hdw := dst16_wf a d ha h16
+      simp only [binPair, h8, h16] at h
+      split at h
+      · cases h; (simp only [sumWF, hdw, Bool.true_and]; rfl)
+      · split at h
+        · cases h
+        · cases h; simp only [sumWF, hdw, Bool.true_and]; simpa [Op16.WF, Opnd.WF] using hb
+      · split at h
+        · cases h
+        · cases h; (simp only [sumWF, hdw, Bool.true_and]; rfl)
+      · simp only [Option.map_eq_some_iff] at h; obtain ⟨v, _, hv⟩ := h; cases hv; (simp only [sumWF, hdw, Bool.true_and]; rfl)
+    | none => simp [binPair, h8, h16] at h
+
+theorem movPair_wf (a b : Opnd) (i : Instr) (ha : Opnd.WF a = true) (hb : Opnd.WF b = true) (h : movPair a b = some i) :
+    i.WF = true := by
+  unfold movPair at h
+  split at h
+  · cases h; rfl
+  · cases h; rfl
+  · cases h; simpa [Instr.WF, Op16.WF, Opnd.WF] using ha
+  · cases h; rfl
+  · cases h; simpa [Instr.WF, Op16.WF, Opnd.WF] using hb
+  · cases h; rfl
+  · split at h
+    · rename_i hp; cases h
+      have := binPair_wf true a b _ ha hb hp
+      simpa [sumWF, Instr.WF] using this
+    · rename_i hp; cases h
+      have := binPair_wf true a b _ ha hb hp
+      simpa [sumWF, Instr.WF] using this
+    · cases h
+
+end Emu8086.Props.C09
+
+namespace Emu8086.Props.C09
+open Emu8086
+
+theorem parseStr_wf (p : Option RepPrefix) (t : List Tok) (i : Instr) (h : parseStr p t = some i) : i.WF = true := by
+  unfold parseStr at h
+  split at h
+  · simp only [Option.map_eq_some_iff] at h; obtain ⟨o, _, ho⟩ := h; cases ho; rfl
+  · simp only [Option.map_eq_some_iff] at h; obtain ⟨o, _, ho⟩ := h; cases ho; rfl
+  · cases h
+
+/-- every instruction the model's parser of an interpreter line produces is well-formed -/
+theorem parseInstr_wf (t : List Tok) (i : Instr) (h : parseInstr t = some i) : i.WF = true := by
+  unfold parseInstr at h
+  split at h
+  · cases h; rfl
+  · cases h; rfl
+  · simp only [Option.bind_eq_some_iff, Option.map_eq_some_iff] at h; obtain ⟨_, _, _, _, he⟩ := h; cases he; rfl
+  · simp only [Option.bind_eq_some_iff, Option.map_eq_some_iff] at h; obtain ⟨_, _, _, _, he⟩ := h; cases he; rfl
+  · simp only [Option.map_eq_some_iff] at h; obtain ⟨_, _, he⟩ := h; cases he; rfl
+  · -- mov
+    simp only [Option.bind_eq_some_iff] at h
+    obtain ⟨⟨a, b⟩, hab, hm⟩ := h
+    obtain ⟨ha, hb⟩ := opnd2_wf _ _ _ hab
+    exact movPair_wf a b i ha hb hm
+  · cases h; rfl
+  · cases h; rfl
+  · cases h; rfl
+  · cases h; rfl
+  · cases h; rfl
+  · -- xchg
+    simp only [Option.bind_eq_some_iff] at h
+    obtain ⟨⟨a, b⟩, hab, hm⟩ := h
+    obtain ⟨ha, hb⟩ := opnd2_wf _ _ _ hab
+    split at hm <;> first | (cases hm; first | rfl | (simp_all [Instr.WF, Op8.WF, Op16.WF, Opnd.WF])) | (cases hm)
+  · -- pop
+    simp only [Option.bind_eq_some_iff] at h
+    obtain ⟨a, ha', hm⟩ := h
+    have ha := opnd1_wf _ _ ha'
+    split at hm
+    · cases hm; rfl
+    · split at hm <;> first | (cases hm; rfl) | (cases hm)
+    · cases hm; simpa [Instr.WF, Op16.WF, Opnd.WF] using ha
+    · cases hm; rfl
+    · cases hm
+  · -- push
+    simp only [Option.bind_eq_some_iff] at h
+    obtain ⟨a, ha', hm⟩ := h
+    have ha := opnd1_wf _ _ ha'
+    split at hm <;> first | (cases hm; first | rfl | (simp_all [Instr.WF, Op8.WF, Op16.WF, Opnd.WF])) | (cases hm)
+  · -- lea
+    simp only [Option.bind_eq_some_iff] at h
+    obtain ⟨⟨a, b⟩, hab, hm⟩ := h
+    obtain ⟨ha, hb⟩ := opnd2_wf _ _ _ hab
+    split at hm <;> first | (cases hm; first | rfl | (simp_all [Instr.WF, Op8.WF, Op16.WF, Opnd.WF])) | (cases hm)
+  · cases h; rfl
+  · cases h; rfl
+  · simp only [Option.map_eq_some_iff] at h; obtain ⟨_, _, he⟩ := h; cases he; rfl
+  · -- not
+    simp only [Option.bind_eq_some_iff] at h
+    obtain ⟨a, ha', hm⟩ := h
+    have ha := opnd1_wf _ _ ha'
+    split at hm
+    · rename_i d hd _; cases hm; exact dst8_wf a _ ha (by assumption)
+    · rename_i d hd; cases hm; exact dst16_wf a _ ha (by assumption)
+    · cases hm
+  · -- the mnemonic families
+    split at h
+    · -- arithmetic
+      simp only [Option.bind_eq_some_iff, Option.map_eq_some_iff] at h
+      obtain ⟨⟨a, b⟩, hab, r, hr, he⟩ := h
+      obtain ⟨ha, hb⟩ := opnd2_wf _ _ _ hab
+      have := binPair_wf true a b r ha hb hr
+      cases r with
+      | inl p => obtain ⟨d, s⟩ := p; cases he; simpa [sumWF, Instr.WF] using this
+      | inr p => obtain ⟨d, s⟩ := p; cases he; simpa [sumWF, Instr.WF] using this
+    · -- logic
+      simp only [Option.bind_eq_some_iff, Option.map_eq_some_iff] at h
+      obtain ⟨⟨a, b⟩, hab, r, hr, he⟩ := h
+      obtain ⟨ha, hb⟩ := opnd2_wf _ _ _ hab
+      have := binPair_wf false a b r ha hb hr
+      cases r with
+      | inl p => obtain ⟨d, s⟩ := p; cases he; simpa [sumWF, Instr.WF] using this
+      | inr p => obtain ⟨d, s⟩ := p; cases he; simpa [sumWF, Instr.WF] using this
+    · -- unary
+      simp only [Option.bind_eq_some_iff] at h
+      obtain ⟨a, ha', hm⟩ := h
+      have ha := opnd1_wf _ _ ha'
+      split at hm
+      · cases hm; exact dst8_wf a _ ha (by assumption)
+      · cases hm; exact dst16_wf a _ ha (by assumption)
+      · cases hm
+    · -- shift / rotate
+      simp only [Option.bind_eq_some_iff] at h
+      obtain ⟨⟨a, b⟩, hab, hm⟩ := h
+      obtain ⟨ha, hb⟩ := opnd2_wf _ _ _ hab
+      split at hm
+      · cases hm; exact dst8_wf a _ ha (by assumption)
+      · cases hm; exact dst16_wf a _ ha (by assumption)
+      · cases hm
+    · split at h
+      · split at h <;> first | (cases h; rfl) | (cases h)
+      · split at h <;> first | (cases h; rfl) | (cases h)
+      · exact parseStr_wf _ _ _ h
+      · exact parseStr_wf _ _ _ h
+      · split at h <;> first | (cases h; rfl) | (cases h)
+      · cases h
+  · cases h
+
+theorem parseLine_wf (s : String) (i : Instr) (h : parseLine s = some i) : i.WF = true := by
+  unfold parseLine at h
+  simp only [Option.bind_eq_some_iff] at h
+  obtain ⟨t, _, hi⟩ := h
+  exact parseInstr_wf t i hi
 
 end Emu8086.Props.C09
